@@ -15,6 +15,12 @@ package main
 //              tip commit is younger than fetchrecentrefsdays +
 //              pruneoffsetdays (only if fetchrecentrefsdays > 0). Tags and
 //              remote-tracking refs are not demanded.                     [waived by --recent/--force]
+//   recent-remote-ref  the same for the tip of every remote-tracking branch
+//              refs/remotes/<any remote>/<branch> (not the symbolic
+//              refs/remotes/*/HEAD), unless lfs.fetchrecentremoterefs is
+//              false (git-lfs-prune(1): fetchrecentremoterefs is a base of
+//              the offsetted window; git-lfs-fetch(1): "apply to remote
+//              refs as well", default true).              [waived by --recent/--force]
 //   recent-commit  for T in {HEAD of the worktree prune runs in} ∪ recent
 //              branch tips, N = fetchrecentcommitsdays + pruneoffsetdays
 //              (only if fetchrecentcommitsdays > 0): pointers that a
@@ -60,10 +66,13 @@ type oracle struct {
 	stashBase    map[string]string            // observed only: in a stash's tree but also in its base commit's tree
 	detachedOnly map[string]string            // observed only: unpushed objects reachable only from a detached HEAD
 	recentTips   []string
-	exclude      []string
+	// recent-remote-ref clause: "prune-remote" if a remote-tracking branch of the prune remote keeps the oid recent,
+	// else "second-remote"
+	remoteRefKind map[string]string
+	exclude       []string
 }
 
-var clauseOrder = []string{"unpushed", "stashed", "checkout", "index", "recent-ref", "recent-commit"}
+var clauseOrder = []string{"unpushed", "stashed", "checkout", "index", "recent-ref", "recent-commit", "recent-remote-ref"}
 
 func (o *oracle) required(force, recent bool) []string {
 	switch {
@@ -189,11 +198,11 @@ func short(s string) string {
 }
 
 func (c *cs) computeOracle() *oracle {
-	o := &oracle{clause: map[string]map[string]string{}, reachable: map[string]string{}, reachPaths: map[string]map[string]bool{}, stashBase: map[string]string{}, detachedOnly: map[string]string{}, exclude: c.cfg.Exclude}
+	o := &oracle{clause: map[string]map[string]string{}, reachable: map[string]string{}, reachPaths: map[string]map[string]bool{}, stashBase: map[string]string{}, detachedOnly: map[string]string{}, remoteRefKind: map[string]string{}, exclude: c.cfg.Exclude}
 	for _, cl := range clauseOrder {
 		o.clause[cl] = map[string]string{}
 	}
-	remoteGlob := "--remotes=" + c.cfg.Remote
+	remoteGlob := "--remotes=" + c.cfg.PruneRemote()
 	worktrees := append([]string{c.main}, c.wts...)
 
 	// checkout + index
@@ -289,6 +298,46 @@ func (c *cs) computeOracle() *oracle {
 		}
 	}
 
+	// recent remote-tracking branches of every remote
+	if c.cfg.RefsDays > 0 && c.cfg.RemoteRefs != "false" {
+		window := float64(c.cfg.RefsDays + c.cfg.OffsetDays)
+		out, _ := c.plain(c.main, "for-each-ref", "--format=%(refname) %(objectname) %(committerdate:unix) %(symref)", "refs/remotes")
+		for _, l := range strings.Split(out, "\n") {
+			f := strings.Fields(l)
+			if len(f) != 3 { // a 4th field = symbolic ref (refs/remotes/<r>/HEAD)
+				continue
+			}
+			parts := strings.SplitN(strings.TrimPrefix(f[0], "refs/remotes/"), "/", 2)
+			if len(parts) != 2 || parts[1] == "HEAD" {
+				continue
+			}
+			ts, err := strconv.ParseInt(f[2], 10, 64)
+			if err != nil {
+				continue
+			}
+			c.run.Count("remote_tracking_branches_seen", 1)
+			age := float64(c.t0.Unix()-ts) / 86400
+			if age > window-0.5 {
+				continue
+			}
+			c.run.Count("remote_tracking_branches_recent", 1)
+			kind := "second-remote"
+			if parts[0] == c.cfg.PruneRemote() {
+				kind = "prune-remote"
+			}
+			c.run.Count("remote_tracking_branches_recent_"+strings.ReplaceAll(kind, "-", "_"), 1)
+			for _, p := range c.ptrsAt(f[1]) {
+				if excluded(o.exclude, p.Path) {
+					continue
+				}
+				o.add("recent-remote-ref", p.Ptr.Oid, fmt.Sprintf("tip %s of remote-tracking branch %s aged %.1f days (window %d+%d days, lfs.fetchrecentremoterefs %s), path %q", short(f[1]), f[0], age, c.cfg.RefsDays, c.cfg.OffsetDays, c.cfg.RemoteRefs, p.Path))
+				if o.remoteRefKind[p.Ptr.Oid] != "prune-remote" {
+					o.remoteRefKind[p.Ptr.Oid] = kind
+				}
+			}
+		}
+	}
+
 	// unpushed
 	pushed := map[string]bool{}
 	for _, cm := range c.revList(remoteGlob) {
@@ -299,7 +348,7 @@ func (c *cs) computeOracle() *oracle {
 	for _, cm := range c.revList("--branches", "--tags", "--not", remoteGlob) {
 		for _, p := range c.ptrsAt(cm) {
 			if !pushed[p.Ptr.Oid] {
-				o.add("unpushed", p.Ptr.Oid, fmt.Sprintf("local-only commit %s, path %q; in no tree of any commit reachable from refs/remotes/%s/*", short(cm), p.Path, c.cfg.Remote))
+				o.add("unpushed", p.Ptr.Oid, fmt.Sprintf("local-only commit %s, path %q; in no tree of any commit reachable from refs/remotes/%s/*", short(cm), p.Path, c.cfg.PruneRemote()))
 			}
 		}
 	}
